@@ -605,21 +605,73 @@ theorem ruleSubsContr_sound {red bin : OpK} {vars : List Name} {ts : List (Ex R)
 
 /-- `unary_contract` (cnf.py:592-599): a unary operation that is a homomorphism for `bin`
     (negation for `+`, reciprocal for `*`) distributes over the terms. -/
-theorem ruleUnaryContr_sound {bin : OpK} {vars : List Name} {ts : List (Ex R)} {u : R → R}
-    (hhom : ∀ xs : List R, u (binFold (sr R) bin xs) = binFold (sr R) bin (xs.map u))
+theorem ruleUnaryContr_sound {hom bin : OpK} {vars : List Name} {ts : List (Ex R)} {u : R → R}
+    (hhom : ∀ xs : List R, u (binFold (sr R) hom xs) = binFold (sr R) hom (xs.map u))
     (hv : vars = [])
-    {t' : Ex R} (h : ruleUnaryContr (.unary u (.contr .null bin vars ts)) = some t') (env : Env) :
-    t'.eval (sr R) size env = (Ex.unary u (.contr .null bin vars ts)).eval (sr R) size env := by
+    {t' : Ex R} (h : ruleUnaryContr (.unary hom u (.contr .null bin vars ts)) = some t') (env : Env) :
+    t'.eval (sr R) size env = (Ex.unary hom u (.contr .null bin vars ts)).eval (sr R) size env := by
   simp only [ruleUnaryContr] at h
   split at h
   swap
   · exact absurd h (by simp)
+  rename_i hc
   simp only [Option.some.injEq] at h
   subst hv
+  obtain ⟨_, rfl⟩ := hc
   rw [← h]
   simp only [Ex.eval, redFold, evalList_eq_map, List.map_map]
   rw [hhom]
   simp only [List.map_map, Function.comp_def, Ex.eval]
+
+/-- `binary_subtract` / `binary_divide` (cnf.py:574-581): `a - b = a + (-b)`, `a / b = a * b⁻¹`. -/
+theorem ruleBinopInv_sound {k : OpK} {u : R → R} {f : R → R → R} {l r : Ex R}
+    (hf : ∀ a b, f a b = binFold (sr R) k [a, u b])
+    {t' : Ex R} (h : ruleBinopInv (.binop k u f l r) = some t') (env : Env) :
+    t'.eval (sr R) size env = (Ex.binop k u f l r).eval (sr R) size env := by
+  simp only [ruleBinopInv] at h
+  split at h
+  swap
+  · exact absurd h (by simp)
+  simp only [Option.some.injEq] at h
+  rw [← h]
+  simp only [Ex.eval, hf]
+
+/-- Subtraction in a commutative ring and division in a field are instances. -/
+theorem sub_is_add_neg {S : Type} [CommRing S] (a b : S) : a - b = binFold (sr S) .add [a, -b] := by
+  simp [binFold, sumV, sr, sub_eq_add_neg]
+
+theorem div_is_mul_inv {S : Type} [Field S] (a b : S) : a / b = binFold (sr S) .mul [a, b⁻¹] := by
+  simp [binFold, prodV, sr, div_eq_mul_inv]
+
+/-- Reordering the operands of a Contraction (any permutation) preserves its value: `⊕`, `⊗` commute. -/
+theorem contr_perm_sound {red bin : OpK} {vars : List Name} {ts ts' : List (Ex R)} (hb : bin ≠ .null)
+    (hp : ts.Perm ts') (env : Env) :
+    (Ex.contr red bin vars ts').eval (sr R) size env = (Ex.contr red bin vars ts).eval (sr R) size env := by
+  rw [eval_contr, eval_contr]
+  apply congrFun
+  apply redFold_congr
+  intro e
+  cases bin with
+  | null => exact absurd rfl hb
+  | add => simp only [binFold_add]; exact ((hp.map _).sum_eq).symm
+  | mul => simp only [binFold_mul]; exact ((hp.map _).prod_eq).symm
+
+/-- `normalize_contraction_commutative_canonical_order` (cnf.py:413-430). -/
+theorem ruleCanonOrder_sound {addK : OpK} {ground : Ex R → Option Nat} (haddK : addK ≠ .null)
+    {t t' : Ex R} (h : ruleCanonOrder addK ground t = some t') (env : Env) :
+    t'.eval (sr R) size env = t.eval (sr R) size env := by
+  unfold ruleCanonOrder at h
+  split at h
+  · rename_i red bin vars a b
+    split at h
+    · split at h
+      · rename_i hc
+        simp only [Option.some.injEq] at h
+        rw [← h]
+        exact contr_perm_sound size (hc.1 ▸ haddK) (List.Perm.swap b a []) env
+      · exact absurd h (by simp)
+    · exact absurd h (by simp)
+  · exact absurd h (by simp)
 
 /-! ## the cascade and normal forms -/
 
@@ -637,68 +689,6 @@ theorem iterRoot_sound (step : Ex R → Option (Ex R)) (Good : Ex R → Prop)
       obtain ⟨hg', he⟩ := hstep t t' hg hs
       rw [iterRoot_sound step Good hstep n t' hg' env, he env]
 
-/-- The root cascade of `normalize` on a constructed (well-formed) Contraction, a Binary or a Reduce:
-    whatever rule fires preserves the value. -/
-theorem normRoot_sound {isU : OpK → R → Bool}
-    (hmul : ∀ c, isU .mul c = true → c = 1) (hadd : ∀ c, isU .add c = true → c = 0)
-    {t t' : Ex R}
-    (hside : match t with
-      | .contr red bin vars ts => wfContr red bin vars ts = true ∧
-          ∀ pre v post, ts = pre ++ v :: post → OperandOK size vars (pre ++ post) v
-      | .binary _ _ _ => True
-      | .reduce _ _ _ => True
-      | _ => False)
-    (h : normRoot isU t = some t') (env : Env) :
-    t'.eval (sr R) size env = t.eval (sr R) size env := by
-  unfold normRoot at h
-  cases t with
-  | binary op l r =>
-    cases hb : ruleBinary (Ex.binary op l r) with
-    | some x => rw [hb] at h; simp only [Option.orElse_some, Option.some.injEq] at h; exact h ▸ ruleBinary_sound size hb env
-    | none =>
-      exfalso
-      rw [hb] at h
-      simp [ruleReduce, ruleSubsContr, ruleUnaryContr, ruleNullRed, ruleSingle, ruleTrivial, ruleRedIsBin,
-        ruleUnits, ruleFuse] at h
-  | reduce op vars e =>
-    cases hb : ruleReduce (Ex.reduce op vars e) with
-    | some x =>
-      simp only [ruleBinary, Option.orElse_none, hb, Option.orElse_some, Option.some.injEq] at h
-      exact h ▸ ruleReduce_sound size hb env
-    | none =>
-      exfalso
-      simp [ruleBinary, hb, ruleSubsContr, ruleUnaryContr, ruleNullRed, ruleSingle, ruleTrivial, ruleRedIsBin,
-        ruleUnits, ruleFuse] at h
-  | contr red bin vars ts =>
-    obtain ⟨hwf, hops⟩ := hside
-    simp only [ruleBinary, ruleReduce, ruleSubsContr, ruleUnaryContr, Option.orElse_none] at h
-    cases h1 : ruleNullRed (Ex.contr red bin vars ts) with
-    | some x => rw [h1] at h; simp only [Option.orElse_some, Option.some.injEq] at h; exact h ▸ ruleNullRed_sound size h1 env
-    | none =>
-      rw [h1] at h
-      simp only [Option.orElse_none] at h
-      cases h2 : ruleSingle (Ex.contr red bin vars ts) with
-      | some x => rw [h2] at h; simp only [Option.orElse_some, Option.some.injEq] at h; exact h ▸ ruleSingle_sound size h2 env
-      | none =>
-        rw [h2] at h
-        simp only [Option.orElse_none] at h
-        have h3 : ruleTrivial (Ex.contr red bin vars ts) = none := by
-          cases red <;> cases bin <;> simp_all [ruleTrivial, wfContr]
-        have h4 : ruleRedIsBin (Ex.contr red bin vars ts) = none := by
-          cases red <;> cases bin <;> simp_all [ruleRedIsBin, wfContr]
-        rw [h3, h4] at h
-        simp only [Option.orElse_none] at h
-        cases h5 : ruleUnits isU (Ex.contr red bin vars ts) with
-        | some x => rw [h5] at h; simp only [Option.orElse_some, Option.some.injEq] at h; exact h ▸ ruleUnits_sound size hmul hadd h5 env
-        | none =>
-          rw [h5] at h
-          simp only [Option.orElse_none] at h
-          exact ruleFuse_sound size hwf hops h env
-  | leaf _ _ => exact hside.elim
-  | num _ => exact hside.elim
-  | subs _ _ => exact hside.elim
-  | unary _ _ => exact hside.elim
-
 /-- **normalize_idempotent_flat**: on a flat sum-product form no rule of the cascade fires (the
     interpretation reflects: `reinterpret(n) is n`), hence normalising again returns the same term. -/
 theorem normRoot_flat {isU : OpK → R → Bool} {t : Ex R} (hflat : isFlat isU t = true) :
@@ -709,7 +699,8 @@ theorem normRoot_flat {isU : OpK → R → Bool} {t : Ex R} (hflat : isFlat isU 
   | binary _ _ _ => simp [isFlat] at hflat
   | reduce _ _ _ => simp [isFlat] at hflat
   | subs _ _ => simp [isFlat] at hflat
-  | unary _ _ => simp [isFlat] at hflat
+  | unary _ _ _ => simp [isFlat] at hflat
+  | binop _ _ _ _ _ => simp [isFlat] at hflat
   | contr red bin vars ts =>
     simp only [isFlat, Bool.and_eq_true, Bool.or_eq_true, bne_iff_ne, ne_eq, beq_iff_eq, Bool.not_eq_true',
       List.isEmpty_eq_false_iff, decide_eq_true_eq, List.all_eq_true] at hflat
@@ -751,20 +742,15 @@ theorem normRoot_flat {isU : OpK → R → Bool} {t : Ex R} (hflat : isFlat isU 
       intro v hv a b
       have := hops v hv
       cases v <;> simp_all [isFlatOperand, fuseAt]
-    simp [normRoot, ruleBinary, ruleReduce, ruleSubsContr, ruleUnaryContr, h1, h2, h3, h4, h5, h6]
+    simp [normRoot, ruleBinary, ruleReduce, ruleBinopInv, ruleSubsContr, ruleUnaryContr, h1, h2, h3, h4, h5, h6]
 
-theorem normList_flatOperands {isU : OpK → R → Bool} {b : OpK} (fuel : Nat) :
-    ∀ ts : List (Ex R), (∀ x ∈ ts, isFlatOperand (isU b) x = true) → normList isU fuel ts = ts
-  | [], _ => by simp [normList]
-  | x :: ts, h => by
-    have hx : norm isU fuel x = x := by
-      have := h x (by simp)
-      cases fuel with
-      | zero => simp [norm]
-      | succ n => cases x <;> simp_all [isFlatOperand, norm, normRoot, ruleBinary, ruleReduce, ruleSubsContr,
-          ruleUnaryContr, ruleNullRed, ruleSingle, ruleTrivial, ruleRedIsBin, ruleUnits, ruleFuse]
-    simp only [normList, hx]
-    rw [normList_flatOperands fuel ts (fun y hy => h y (List.mem_cons_of_mem _ hy))]
+theorem norm_flatOperand {isU : OpK → R → Bool} {b : OpK} (fuel : Nat) {x : Ex R}
+    (h : isFlatOperand (isU b) x = true) : norm isU fuel x = x := by
+  cases fuel with
+  | zero => simp [norm]
+  | succ n =>
+    cases x <;> simp_all [isFlatOperand, norm, mapChildren, normRoot, ruleBinary, ruleReduce, ruleBinopInv,
+      ruleSubsContr, ruleUnaryContr, ruleNullRed, ruleSingle, ruleTrivial, ruleRedIsBin, ruleUnits, ruleFuse]
 
 theorem normalize_idempotent_flat {isU : OpK → R → Bool} {t : Ex R} (hflat : isFlat isU t = true)
     (fuel : Nat) : norm isU fuel t = t := by
@@ -772,17 +758,23 @@ theorem normalize_idempotent_flat {isU : OpK → R → Bool} {t : Ex R} (hflat :
   | zero => simp [norm]
   | succ n =>
     cases t with
-    | leaf _ _ => simp [norm, normRoot_flat hflat]
-    | num _ => simp [norm, normRoot_flat hflat]
+    | leaf _ _ => simp [norm, mapChildren, normRoot_flat hflat]
+    | num _ => simp [norm, mapChildren, normRoot_flat hflat]
     | binary _ _ _ => simp [isFlat] at hflat
     | reduce _ _ _ => simp [isFlat] at hflat
     | subs _ _ => simp [isFlat] at hflat
-    | unary _ _ => simp [isFlat] at hflat
+    | unary _ _ _ => simp [isFlat] at hflat
+    | binop _ _ _ _ _ => simp [isFlat] at hflat
     | contr red bin vars ts =>
       have hops : ∀ x ∈ ts, isFlatOperand (isU bin) x = true := by
         simp only [isFlat, Bool.and_eq_true, List.all_eq_true] at hflat
         exact hflat.2
-      simp only [norm, normList_flatOperands n ts hops, normRoot_flat hflat]
+      have hmap : ts.map (norm isU n) = ts := by
+        conv_rhs => rw [← List.map_id ts]
+        apply List.map_congr_left
+        intro x hx
+        simp [norm_flatOperand n (hops x hx)]
+      simp only [norm, mapChildren, hmap, normRoot_flat hflat]
 
 /-- Normalising the normaliser's output again changes nothing whenever that output is flat. -/
 theorem normalize_idempotent {isU : OpK → R → Bool} (t : Ex R) (fuel fuel' : Nat)
@@ -812,7 +804,8 @@ mutual
     | .reduce op vars e => (op = .add ∨ vars = []) ∧ LeavesWF e
     | .contr red _ vars ts => (red = .add ∨ vars = []) ∧ LeavesWFList ts
     | .subs e _ => LeavesWF e
-    | .unary _ e => LeavesWF e
+    | .unary _ _ e => LeavesWF e
+    | .binop _ _ _ l r => LeavesWF l ∧ LeavesWF r
   def LeavesWFList : List (Ex R) → Prop
     | [] => True
     | t :: ts => LeavesWF t ∧ LeavesWFList ts
@@ -893,13 +886,21 @@ mutual
                 rw [this, hl]; simp
               · exact List.mem_cons_of_mem _ (ih hl)
           exact List.mem_filterMap.mpr ⟨(n, Arg.var m), hmem, by simp [hn]⟩
-    | .unary u e, h => by
+    | .unary _ u e, h => by
       simp only [LeavesWF] at h
       intro env env' hag
       simp only [Ex.eval, Ex.ins] at hag ⊢
       have e1 := eval_dependsOn e h env env' hag
       simp only at e1
       rw [e1]
+    | .binop _ _ f l r, h => by
+      simp only [LeavesWF] at h
+      intro env env' hag
+      simp only [Ex.eval, Ex.ins] at hag ⊢
+      have e1 := eval_dependsOn l h.1 env env' (fun n hn => hag n (mem_lUnion.mpr (Or.inl hn)))
+      have e2 := eval_dependsOn r h.2 env env' (fun n hn => hag n (mem_lUnion.mpr (Or.inr hn)))
+      simp only at e1 e2
+      rw [e1, e2]
   theorem evalList_dependsOn : ∀ (ts : List (Ex R)), LeavesWFList ts →
       ∀ env env' : Env, (∀ n ∈ insList ts, env n = env' n) →
         evalList (sr R) size ts env = evalList (sr R) size ts env'
